@@ -76,6 +76,17 @@ C01_CompletionOnce ==
         /\ \A m \in Range(completions[k].msgs) : Known(m) /\ Count(m, completions[k].msgs) = 1
         /\ cfg.acked => \A m \in Range(completions[k].msgs) : completions[k].ok <=> Acked(m)
 
+\* "the Completion callback receives every accepted message exactly once": Completion runs before the batch is
+\* marked done (writeBatch), so when a synchronous call has returned with nil or WriteErrors every message of the call
+\* has had its callback; and once Close has returned, so has every message that was ever put into a produce request.
+C01_CompletionEvery ==
+  /\ \A c \in DOMAIN calls :
+       (calls[c].returned /\ calls[c].result \in {"nil", "errors"} /\ Strict /\ Len(calls[c].msgs) > 0)
+          => \A m \in MsgsOfCall(c) : Cardinality(CompletionsOf(m)) = 1
+  /\ closeState = "returned" =>
+       \A m \in AllMsgs : (\E k \in DOMAIN attempts : m \in Range(attempts[k].msgs))
+                               => Cardinality(CompletionsOf(m)) = 1
+
 C01_NoStrayWrites ==
   /\ \A tp \in DOMAIN log : \A k \in DOMAIN log[tp] :
         LET m == log[tp][k] IN Known(m) /\ HasChoice(m) /\ MTP(m) = tp
@@ -164,7 +175,7 @@ C09w_AttemptsBounded ==
   \A m \in AllMsgs : Cardinality(AttemptsOf(m)) <= cfg.maxAttempts
 
 AllProps ==
-  /\ C01_NilMeansAcked /\ C01_ErrorsExact /\ C01_CompletionOnce /\ C01_NoStrayWrites
+  /\ C01_NilMeansAcked /\ C01_ErrorsExact /\ C01_CompletionOnce /\ C01_CompletionEvery /\ C01_NoStrayWrites
   /\ C01_DupOnlyFromLostAck /\ C07_Order /\ C07_OrderInRequest /\ C08_Limits
   /\ C08_RejectedUnsent /\ C08_RejectedExactly /\ C09w_AfterClose /\ C09w_CloseMeansDrained
   /\ C09w_AttemptsBounded
